@@ -91,7 +91,7 @@ Core == [ok |-> fin.ok, end |-> fin.end, toks |-> ByteToks(fin.toks), ptoks |-> 
          stk |-> ByteStk(fin.stk), trk |-> fin.trk,
          full |-> IF "fullok" \in DOMAIN fin THEN [ok |-> fin.fullok, end |-> fin.fullend, trk |-> fin.fulltrk]
                   ELSE [ok |-> FALSE, end |-> -1, trk |-> fin.trk]]
-Extra == IF EmitMode = "all" THEN [calls |-> ByteCalls(fin.calls), log |-> ByteLog(log)] ELSE [x |-> 0]
+Extra == IF EmitMode = "all" THEN [calls |-> ByteCalls(fin.calls), log |-> ByteLog(log), plog |-> ByteLog(fin.log)] ELSE [x |-> 0]
 Record == IF pc = "done" THEN Base @@ Core @@ Extra ELSE Base
 
 EmitBehaviour == Halted => PrintT(<<"B", ToJson(Record)>>)
